@@ -29,10 +29,18 @@ const (
 )
 
 func (e *fnEnc) canInline(callee *ssa.Function, key string) bool {
+	return e.canInlineWith(callee, key, nil)
+}
+
+func (e *fnEnc) canInlineWith(callee *ssa.Function, key string, mc *ssa.MakeClosure) bool {
 	if e.inlDepth >= inlMaxDepth || e.inRecover {
 		return false
 	}
-	if !e.V.inlinableShape(callee, key) {
+	if mc != nil && callee != nil && len(callee.FreeVars) == len(mc.Bindings) {
+		if !e.V.inlinableBody(callee, key) {
+			return false
+		}
+	} else if !e.V.inlinableShape(callee, key) {
 		return false
 	}
 	if e.V.reach(key, e.key) {
@@ -45,7 +53,17 @@ func (e *fnEnc) canInline(callee *ssa.Function, key string) bool {
 // the call site). A function of this shape that is only ever called directly
 // is verified in the context of each of its call sites, never on its own.
 func (V *Verifier) inlinableShape(callee *ssa.Function, key string) bool {
-	if callee == nil || len(callee.Blocks) == 0 || len(callee.Blocks) > inlMaxBlocks || len(callee.FreeVars) > 0 || callee.Recover != nil {
+	if callee == nil || len(callee.FreeVars) > 0 {
+		return false
+	}
+	return V.inlinableBody(callee, key)
+}
+
+// inlinableBody is inlinableShape without the "no free variables" condition:
+// a function literal called right where it was made can be inlined with its
+// free variables bound to the closure's bindings.
+func (V *Verifier) inlinableBody(callee *ssa.Function, key string) bool {
+	if callee == nil || len(callee.Blocks) == 0 || len(callee.Blocks) > inlMaxBlocks || callee.Recover != nil {
 		return false
 	}
 	if callee.Signature.Variadic() {
@@ -79,8 +97,23 @@ func (V *Verifier) inlinableShape(callee *ssa.Function, key string) bool {
 // problem inside the callee the state is rolled back and ok == false (the
 // caller falls back to the modular treatment).
 func (e *fnEnc) inline(callee *ssa.Function, key string, args []Term, pos token.Pos) (res []Term, ok bool) {
+	return e.inlineWith(callee, key, args, pos, nil)
+}
+
+func (e *fnEnc) inlineWith(callee *ssa.Function, key string, args []Term, pos token.Pos, mc *ssa.MakeClosure) (res []Term, ok bool) {
 	if len(args) != len(callee.Params) {
 		return nil, false
+	}
+	if len(callee.FreeVars) > 0 {
+		if mc == nil || len(mc.Bindings) != len(callee.FreeVars) {
+			return nil, false
+		}
+		for i, fv := range callee.FreeVars {
+			e.val[fv] = e.getN(mc.Bindings[i])
+			if d := e.addr[mc.Bindings[i]]; d != nil {
+				e.addr[fv] = d
+			}
+		}
 	}
 	// snapshot for roll-back
 	nDecls, nAsserts, nObls, nNotes, nImp, nAllocs := len(e.decls), len(e.asserts), len(e.obls), len(e.notes), len(e.imprecise), len(e.allocs)
